@@ -35,9 +35,9 @@ def selected (s : Settings) (e : ExcObj) : Bool :=
 /-- the class can be rebuilt from the args: `cls(*e.args)` succeeds with the same args -/
 def rebuildable (e : ExcObj) : Bool := e.cls.ctor e.args == some e.args
 
-/-- a subclass of the class can be created and its instances accept new attributes
-    (otherwise no object can be both an instance of the class and a finalized GlomError) -/
-def extensible (e : ExcObj) : Bool := !e.cls.sealed && !e.cls.frozen
+/-- a subclass of the class can be created, its instances accept new attributes and their traceback can
+    be formatted (otherwise no object can be both an instance of the class and a finalized GlomError) -/
+def extensible (e : ExcObj) : Bool := !e.cls.sealed && !e.cls.frozen && !e.cls.boolRaises
 
 inductive RetKind where
   | value        -- some other object
@@ -103,10 +103,10 @@ def tmeMroDoc : List String :=
 
 /-- the DOCUMENTED shape of `glom()`, `GlomError.wrap`, `_glom`, `Coalesce`, the conversions:
     the reference evaluation of the correspondence driver uses these values, whatever was extracted -/
-def docFacts (typeInTry attrGuarded : Bool) : Facts :=
+def docFacts (attrGuarded : Bool) : Facts :=
   { shapeOk := true, defIfSkip := some .none_, defElse := none, skipIfMissing := [], skipElse := ["GlomError"],
     debugDefault := false, outerCatch := ["Exception"], copyArgsCheck := true, copyFallback := true,
-    wrapArgsCheck := true, wrapFallback := true, wrapTypeInTry := typeInTry, attrGuarded := attrGuarded,
+    wrapArgsCheck := true, wrapFallback := true, wrapTypeInTry := true, attrGuarded := attrGuarded,
     errTestTruthy := false, tmeCopyFixed := false, tmeMro := tmeMroDoc,
     frameCatch := ["Exception"], coalesceSkipDefault := ["GlomError"],
     iterCatch := ["Exception"], iterRaises := "TypeError",
@@ -116,11 +116,12 @@ def docFacts (typeInTry attrGuarded : Bool) : Facts :=
 /-- the shape of `glom()` the theorems are about: the documented defaulting, an outer
     `except Exception`, both guards (`args` comparison, fall back to the original)
     around both re-constructions, `raise err` decided by identity, a `__copy__`
-    that keeps the class, `_glom` catching `Exception` only, the documented conversions.
-    (Whether `type(…)`, `_set_wrapped`, `_finalize` are guarded is NOT demanded: the theorems
-    carry it as a hypothesis on the class, see `Tame`.) -/
+    that keeps the class, `_glom` catching `Exception` only, the documented conversions, the
+    `type(…)` call of `wrap` inside its `try` (repair 205945c).
+    (Whether `_set_wrapped` / `_finalize` are guarded is NOT demanded — they are not, a known finding —:
+    the theorems carry it as a hypothesis on the class, see `Tame`.) -/
 def WF (F : Facts) : Bool :=
-  F == docFacts F.wrapTypeInTry F.attrGuarded
+  F == docFacts F.attrGuarded
 
 /-- `c04_internal_subtypes`: every `raise X(…)` in glom's own modules names either one of
     glom's exception classes — whose MRO then contains GlomError — or a builtin `Exception`
